@@ -70,11 +70,11 @@ CHECKS = {
    ref="7/C14"),
 
  "C01": dict(cat="model_checking", technique="trace validation by TLC (spec/TraceRoundTrip.tla) of recorded load->dump->load executions; documents from spec/Reader.tla + SlotProbe.tla and the repository corpus",
-   text="For every corpus file the parser accepts (all of them in the thorough tier), every point of the slot product and TLC-simulated documents, the typed projections of loads(t) and loads(dumps(loads(t))) are recorded and TLC decides TreeEq with exactly the two allowances the property names (enum letter case, number -> equal numeric string in string-typed slots, both decided from the extracted schema vocabulary) plus the clause that the written text is accepted.",
-   note="Trusted: TLC, harness projection/interning (harness/project.py, tracecheck.py), CPython str.lower()/str(). Values in the documented exclusion classes are marked by the harness (contains output quote; looks like expression/regex/list/binding) and skipped by the spec per value; string contents sampled.",
+   text="For every corpus file the parser accepts (all of them in the thorough tier), every point of the slot product and TLC-simulated documents, the typed projections of loads(t) and loads(dumps(loads(t))) are recorded and TLC decides TreeEq with exactly the two allowances the property names (enum letter case, number -> equal numeric string in string-typed slots, both decided from the extracted schema vocabulary) plus the clause that the written text is accepted. Quoting boundary: spec/Quoting.tla (TLC: RoundTripLaw, TailLaw over all strings of <=4/5 letters of a 5-letter alphabet, both quotes, every following text) and the replay of all its behaviours through text->dict->text->dict in eight kinds of string slot.",
+   note="Trusted: TLC, harness projection/interning (harness/project.py, tracecheck.py), CPython str.lower()/str(). Values in the documented exclusion classes are marked by the harness (contains output quote; looks like expression/regex/list/binding) and skipped by the spec per value; string contents sampled from pools except for the quoting family, which is enumerated. Public mappyfile.loads / dumps are sampled (every 250th / 5th call).",
    ref="7/C01"),
  "C03": dict(cat="model_checking", technique="TLA+ Writer contract (spec/Writer.tla, Editor.tla): TLC-generated documents and dict-API edit histories with predicted line events, compared with an independent reader's view of dumps output",
-   text="TLC emits documents (slot product + simulated walks) and edit histories (set/replace/delete keyword, add/remove/reorder child objects, assign parsed snippets, read missing keys) together with the line events spec/Writer.tla predicts after every edit (or 'refuse'); the real dict is built and edited through the dict API, dumped, and an independent reader (harness/mapreader.py, never imports mappyfile) must see exactly those lines: kind, keyword, nesting level, lexical class and content of every value. Model-level: balanced line sequences, refusal only reachable through reading a missing key.",
+   text="TLC emits documents (slot product + simulated walks) and edit histories (set/replace/delete keyword, add/remove/reorder child objects, assign parsed snippets, read missing keys) together with the line events spec/Writer.tla predicts after every edit (or 'refuse'); the real dict is built and edited through the dict API, dumped, and an independent reader (harness/mapreader.py, never imports mappyfile) must see exactly those lines: kind, keyword, nesting level, lexical class and content of every value. Model-level: balanced line sequences, refusal only reachable through reading a missing key. The three public writers (dumps, dump, save) must write the printer's text; the quoting family of spec/Quoting.tla is written through the dict API and must appear as q content q in every kind of string slot, contents without representation refused.",
    note="Trusted: TLC, harness/mapreader.py (self-tested on every run against a mappyfile-free reference rendering of the predicted events), concretise.py pools. Strings containing the output quote are not generated (documented exclusion).",
    ref="7/C03"),
  "C04": dict(cat="model_checking", technique="trace validation by TLC (spec/TraceOptions.tla JudgeIdem) over TLC-enumerated option sets (spec/Options.tla)",
@@ -91,7 +91,7 @@ CHECKS = {
    ref="7/C16"),
 
  "C02": dict(cat="model_checking", technique="TLA+ Reader contract (spec/Reader.tla): TLC model checking + TLC-generated behaviours replayed into loads, dict compared with the spec's prediction after every action",
-   text="TLC exhaustively checks the Reader invariants on all documents of <=2 (thorough 3) builder actions over the whole extracted vocabulary; every point of the slot product (type x keyword x value alternative x position, ~4.9k documents) and TLC-simulated random documents (nesting <=5, up to 400 items) are rendered by an independent renderer and loaded by the real code, and the typed, ordered projection of the result must equal the dict the TLA+ contract predicts - per builder action on short walks.",
+   text="TLC exhaustively checks the Reader invariants on all documents of <=2 (thorough 3) builder actions over the whole extracted vocabulary; every point of the slot product (type x keyword x value alternative x position, ~4.9k documents) and TLC-simulated random documents (nesting <=5, up to 400 items) are rendered by an independent renderer and loaded by the real code, and the typed, ordered projection of the result must equal the dict the TLA+ contract predicts - per builder action on short walks. The quoting family of spec/Quoting.tla (every source lexeme the string terminal covers) must load verbatim.",
    note="Trusted: TLC, the renderer harness/concretise.py (lexeme pools, content function), CPython int()/float()/str.lower(). String contents are sampled from pools (seeded), not enumerated. Worker objects are reused; the public loads is sampled.",
    ref="7/C02"),
 }
